@@ -320,6 +320,9 @@ func tableLayout(context *layoutContext, table_ bo.TableBoxITF, bottomSpace pr.F
 						}
 					}
 					row.Height = pr.Max(rowBottomY-row.PositionY, 0)
+					// a row-spanning cell ending here may be shorter than the rows
+					// and spacing it spans: it is stretched down to this row
+					rowBottomY = row.PositionY + row.Height.V()
 				} else {
 					var m pr.Float
 					for _, rowCell := range endingCells {
